@@ -392,7 +392,8 @@ def _n(case):
 
 def model_requests(case, impl):
     if "infra" in impl:
-        return []
+        # infrastructure trouble must end the run with exit 2, never with a verdict
+        raise RuntimeError("C42 real-children infrastructure: " + str(impl["infra"]))
     return [line(ID, "run", _n(case), _wire_ops(_ops(case, impl)))]
 
 
